@@ -8,6 +8,7 @@ import (
 	"net"
 	"net/http"
 	"net/netip"
+	"net/url"
 	"time"
 
 	"github.com/mdlayher/corerad/internal/config"
@@ -192,4 +193,45 @@ func zzH17b() {
 	}
 	zzAssert(len(got.Options.Prefixes) == np && len(got.Options.Routes) == nr && len(got.Options.RDNSS) == ns && len(got.Options.DNSSL) == nd && len(got.Options.PREF64) == n64, "one-rendering-per-option")
 	zzAssert(n64 == 1 && np >= 2 && nr >= 1, "every-configured-kind-present")
+}
+
+// environment: the banner text and the mux dispatch are recorded, not executed
+var zzMuxServed []string
+
+func zzStub_build_Banner() string { return "CoreRAD banner" }
+
+type zzRoutes struct{}
+
+func (zzRoutes) ServeHTTP(w http.ResponseWriter, r *http.Request) {
+	zzMuxServed = append(zzMuxServed, r.URL.Path)
+}
+
+type zzBodyWriter struct{ n *int }
+
+func (zzBodyWriter) Header() http.Header { return http.Header{} }
+func (w zzBodyWriter) Write(b []byte) (int, error) {
+	*w.n += len(b)
+	return len(b), nil
+}
+func (zzBodyWriter) WriteHeader(int) {}
+
+// H17d: every request except "/" is dispatched to the routes registered by
+// NewHandler (so what H17c establishes about the registered routes is what is
+// served); "/" answers with the banner and nothing else.
+func zzH17d() {
+	zzPatterns, zzMuxServed = nil, nil
+	cfg := config.Config{Debug: config.Debug{Address: "localhost:9430"}}
+	h := NewHandler(log.New(io.Discard, "", 0), zzState{}, cfg, http.NotFoundHandler())
+	_, isMux := h.h.(*http.ServeMux)
+	zzAssert(isMux, "handler-dispatches-through-the-mux-the-routes-were-registered-on")
+	h.h = zzRoutes{} // the mux itself is package net/http: recorded, not executed
+	paths := []string{"/", "/metrics", "/debug/pprof/", "/_/api/interfaces", "/other"}
+	p := paths[zzNondetChoice("path", len(paths))]
+	n := 0
+	h.ServeHTTP(zzBodyWriter{n: &n}, &http.Request{Method: "GET", URL: &url.URL{Path: p}})
+	if p == "/" {
+		zzAssert(len(zzMuxServed) == 0 && n > 0, "root-answers-with-the-banner-only")
+	} else {
+		zzAssert(len(zzMuxServed) == 1 && zzMuxServed[0] == p && n == 0, "everything-else-goes-through-the-registered-routes")
+	}
 }
